@@ -5,7 +5,7 @@
 set -u
 root="$1"; shift
 props="$*"
-[ -z "$props" ] && props=$(/verif/bin/gtverif list | grep '^C' | tr '\n' ' ')
+[ -z "$props" ] && props=$(${GTVERIF_BIN:-/verif/bin/gtverif} list | grep '^C' | tr '\n' ' ')
 export GOFLAGS=-mod=mod GOPROXY=off GOSUMDB=off GOTOOLCHAIN=local GOWORK=off
 one() {
   patch="$1"; props="$2"
@@ -17,7 +17,7 @@ one() {
   if ! (cd $d/repo && patch -p1 -s -f < "$patch" >/dev/null 2>$d/err); then echo "$name: PATCH-FAILS $(head -2 $d/err | tr '\n' ' ')"; rm -rf $d; return; fi
   fired=""
   for p in $props; do
-    out=$(GTVERIF_REPO=$d/repo GTVERIF_VERIF=$d/verif /verif/bin/gtverif check -prop $p -tier quick 2>&1); rc=$?
+    out=$(GTVERIF_REPO=$d/repo GTVERIF_VERIF=$d/verif ${GTVERIF_BIN:-/verif/bin/gtverif} check -prop $p -tier quick 2>&1); rc=$?
     if [ $rc -ne 0 ]; then
       keys=$(echo "$out" | grep -v '^NOTE' | grep -o '^[^ ]*: \[[^]]*\]\( undecided:\)\?' | sed 's/^[^ ]*: //; s/\] undecided:/]?/' | head -4 | tr '\n' ' ')
       nv=$(echo "$out" | grep -v '^NOTE' | grep '^[^ ]*: \[' | grep -vc 'undecided:')
@@ -30,4 +30,4 @@ one() {
 }
 export -f one
 mkdir -p /tmp/ms
-find "$root" -name patch.diff | sort | xargs -P 6 -I{} bash -c 'one "$@"' _ {} "$props"
+find "$root" -name patch.diff | sort | xargs -P ${MS_P:-6} -I{} bash -c 'one "$@"' _ {} "$props"
